@@ -56,6 +56,7 @@ Inductive prim_call :=
   | PConcatRows (a b : table) (r : table)
   | PConcatCols (a b : table) (r : option table)
   | PIsnull (c : string) (t : table) (r : option (list bool))
+  | PIsnullAny (cs : list string) (t : table) (r : option (list bool))
   | PLocSetFrom (mask : list bool) (c c2 : string) (t : table) (r : option table)
   | PMerge (how : merge_how) (l rt : table) (lon ron : list string) (sfx : string) (r : option table)
   | PSeriesAgg (fn : string) (vs : list val) (r : option val)
@@ -77,6 +78,7 @@ Definition prim_ok (p : prim_call) : bool :=
   | PConcatRows a b r => table_same (pd_concat_rows a b) r
   | PConcatCols a b r => otable_same (pd_concat_cols a b) r
   | PIsnull c t r => eqb (pd_isnull c t) r
+  | PIsnullAny cs t r => eqb (pd_isnull_any cs t) r
   | PLocSetFrom mask c c2 t r => otable_same (pd_loc_set_from mask c c2 t) r
   | PMerge how l rt lon ron sfx r => otable_same (pd_merge how l rt lon ron sfx) r
   | PSeriesAgg fn vs r => match pd_series_agg fn vs, r with Some a, Some b => val_close a b | None, None => true | _, _ => false end
